@@ -40,6 +40,13 @@ def with_global_deep(ds):
     return ds.Select(lambda e: e.jets.Select(lambda j: j.trks.Where(lambda t: t.pt > G)))
 def with_global_deep4(ds):
     return ds.Select(lambda e: e.jets.Select(lambda j: j.trks.Select(lambda t: t.hits.Select(lambda h: (h.x, G)))))
+def with_global_param(ds):
+    # the value as the parameter of a parameterized call on an object nothing is known about
+    return ds.Select(lambda e: e.getAttribute[G]('pt'))
+def with_global_param_nested(ds):
+    return ds.Select(lambda e: e.jets.Select(lambda j: j.calo().energy[G, 'em'](1)))
+def with_global_slice(ds):
+    return ds.Select(lambda e: e.table[G])
 def make_closure_deep(v):
     def inner(ds):
         return ds.Select(lambda e: e.jets.Select(lambda j: j.trks.Where(lambda t: t.pt > v)))
@@ -229,6 +236,9 @@ def run_value(mon, ds, capmod, v, rnd):
         ("capture.global.Where", capmod.with_global_where, lambda s: s.query_ast.args[1].body.comparators[0]),
         ("capture.global.SelectMany", capmod.with_global_many, lambda s: s.query_ast.args[1].body.args[0]),
         ("capture.closure.Select", capmod.make_closure(v), lambda s: s.query_ast.args[1].body.elts[1]),
+        ("capture.global.parameterized-call", capmod.with_global_param, lambda s: s.query_ast.args[1].body.func.slice),
+        ("capture.global.parameterized-call-nested", capmod.with_global_param_nested, lambda s: s.query_ast.args[1].body.args[0].body.func.slice.elts[0]),
+        ("capture.global.subscript", capmod.with_global_slice, lambda s: s.query_ast.args[1].body.slice),
         ("capture.global.depth3", capmod.with_global_deep, lambda s: s.query_ast.args[1].body.args[0].body.args[0].body.comparators[0]),
         ("capture.global.depth4", capmod.with_global_deep4, lambda s: s.query_ast.args[1].body.args[0].body.args[0].body.args[0].body.elts[1]),
         ("capture.closure.depth3", capmod.make_closure_deep(v), lambda s: s.query_ast.args[1].body.args[0].body.args[0].body.comparators[0]),
